@@ -142,7 +142,34 @@ pub fn gen_case(ch: &mut Choices, p: &Profile) -> SimCase {
     for _ in 0..len {
         // directed phrases: multi-step choreographies that uniform choice would almost never produce
         if p.byzantine && ch.chance(1, 5) {
-            match ch.below(5) {
+            match ch.below(6) {
+                5 if p.crashes => {
+                    // amnesia: two nodes time out before the proposal of the view reaches them, crash and restart; then the
+                    // proposal arrives. Whatever they do now is collected by one node only (with the Byzantine votes on top);
+                    // the others time out, the Byzantine validators report nothing, and every certificate is spread
+                    let perm = ch.perm(5);
+                    let bit = |k: usize| 1u16 << perm[k];
+                    let sel = |k: usize| (((perm[k] << 16) + (1 << 15)) / 5) as u16;
+                    for _ in 0..ch.below(3) {
+                        actions.push(Action::Timeout { mask: u16::MAX });
+                        actions.push(all(2));
+                    }
+                    actions.push(all(2));
+                    actions.push(Action::Flush { mask: u16::MAX, kinds: 0, limit: 0, rounds: 1 });
+                    actions.push(Action::Timeout { mask: bit(2) | bit(3) });
+                    for k in [2, 3] {
+                        actions.push(Action::Crash { node: sel(k) });
+                        actions.push(Action::Restart { node: sel(k) });
+                    }
+                    actions.push(Action::Flush { mask: bit(0) | bit(1) | bit(2) | bit(3), kinds: 1, limit: 1000, rounds: 1 });
+                    actions.push(Action::Flush { mask: bit(0), kinds: 2, limit: 1000, rounds: 1 });
+                    actions.push(Action::Complete { reveal: bit(0), alt_order: false });
+                    actions.push(Action::Timeout { mask: bit(1) | bit(4) });
+                    actions.push(Action::CompleteTimeouts { lie: ch.pick(&[0u8, 5, 0, 4]), reveal: u16::MAX });
+                    actions.push(all(2));
+                    actions.push(Action::Complete { reveal: u16::MAX, alt_order: ch.bool() });
+                    actions.push(all(2));
+                }
                 4 => {
                     // the re-proposal attack: a block gets few votes and the view times out without the Byzantine validators
                     // admitting anything, so a fresh block is proposed for the same number; that one is certified, but only one
